@@ -218,6 +218,16 @@ fn fail(sig: &str, msg: String) -> Fail {
     Fail::new(format!("C13:{}", sig), msg)
 }
 
+fn axis_flags(min: i32, default: i32, max: i32, i: usize) -> u16 {
+    let h = (min as u32).wrapping_mul(0x9E37_79B1) ^ (default as u32).wrapping_mul(0x85EB_CA6B) ^ (max as u32).wrapping_mul(0xC2B2_AE35) ^ (i as u32).wrapping_mul(0x27D4_EB2F);
+    match (h >> 13) % 5 {
+        0 | 1 => 0,
+        2 => 1,
+        3 => 0xFFFF,
+        _ => (h >> 16) as u16,
+    }
+}
+
 pub fn check_case(case: &Case, rec: &mut Rec) -> CaseResult {
     let axes_model: Vec<AxisModel> = case
         .axes
@@ -228,10 +238,14 @@ pub fn check_case(case: &Case, rec: &mut Rec) -> CaseResult {
             min: a.min,
             default: a.default,
             max: a.max,
-            flags: 0,
+            // the axis flags (bit 0: HIDDEN_AXIS, the rest reserved) say nothing about normalisation; they are a
+            // pure function of the axis values so that the Case type and its decoders stay as they are
+            flags: axis_flags(a.min, a.default, a.max, i),
             name_id: 256 + i as u16,
         })
         .collect();
+    rec.class_if(axes_model.iter().any(|a| a.flags & 1 != 0), "axis-flags:HIDDEN_AXIS");
+    rec.class_if(axes_model.iter().any(|a| a.flags & !1 != 0), "axis-flags:reserved-bits");
     // two named instances (mid-way coordinates; the second carries a PostScript name id): their stored
     // coordinate tuples are normalised through the library's own tuple iterator further down
     let inst_coords = |k: i64| -> Vec<i32> { case.axes.iter().map(|a| ((a.min as i64 * (3 - k) + a.max as i64 * (1 + k)) / 4) as i32).collect() };
